@@ -421,6 +421,9 @@ func (w *nw02) mk(kind, idx int) node.Node {
 	}
 }
 
+// ncObs, when set, observes the node-level case with the debug agent (C19): see c19.go
+var ncObs *obs19
+
 func nodeCase(r *rand.Rand, hist map[string]int) (fail string) {
 	defer func() {
 		if p := recover(); p != nil {
@@ -459,6 +462,11 @@ func nodeCase(r *rand.Rand, hist map[string]int) (fail string) {
 			_ = n.Close()
 		}
 	}()
+	obs := ncObs
+	if obs != nil {
+		obs.attach(w)
+		defer obs.detach()
+	}
 	// open ends: a sink, or nothing
 	var sinkPorts []*port.InPort
 	addSink := func(from string) {
@@ -548,6 +556,7 @@ func nodeCase(r *rand.Rand, hist map[string]int) (fail string) {
 		}
 	}
 	answered := 0
+	deadline := time.Now().Add(4 * time.Second)
 	step := func(final bool) bool {
 		time.Sleep(150 * time.Microsecond)
 		poll()
@@ -566,6 +575,9 @@ func nodeCase(r *rand.Rand, hist map[string]int) (fail string) {
 				ms = append(ms, mv{2, k})
 			}
 		}
+		if obs != nil && obs.move(r, time.Until(deadline)) {
+			return true
+		}
 		if len(ms) == 0 {
 			return false
 		}
@@ -574,7 +586,13 @@ func nodeCase(r *rand.Rand, hist map[string]int) (fail string) {
 		case 0:
 			v := 1 + r.Intn(40)
 			reqs = append(reqs, v)
-			if sw.Write(packet.New(types.NewInt(v))) != 1 {
+			if obs != nil {
+				obs.post(-1, func() {
+					if sw.Write(packet.New(types.NewInt(v))) != 1 {
+						obs.setFail("the source write was not accepted")
+					}
+				})
+			} else if sw.Write(packet.New(types.NewInt(v))) != 1 {
 				fail = "the source write was not accepted"
 			}
 		case 1:
@@ -583,11 +601,15 @@ func nodeCase(r *rand.Rand, hist map[string]int) (fail string) {
 		case 2:
 			req := pendingSink[m.a][0]
 			pendingSink[m.a] = pendingSink[m.a][1:]
-			w.sinks[m.a].Receive(sinkAnswer(req))
+			if obs != nil {
+				k := m.a
+				obs.post(k, func() { w.sinks[k].Receive(sinkAnswer(req)) })
+			} else {
+				w.sinks[m.a].Receive(sinkAnswer(req))
+			}
 		}
 		return true
 	}
-	deadline := time.Now().Add(4 * time.Second)
 	idle := 0
 	for answered < nreq && time.Now().Before(deadline) && fail == "" {
 		if !step(false) {
@@ -608,10 +630,16 @@ func nodeCase(r *rand.Rand, hist map[string]int) (fail string) {
 			break
 		}
 	}
+	if obs != nil && fail == "" {
+		fail = obs.getFail()
+	}
 	if fail != "" {
 		return fail
 	}
 	if answered < nreq {
+		if obs != nil {
+			return fmt.Sprintf("node level (topology %d, wiring %v, %s): only %d of %d requests %v were answered: %v", topo, w.wire, obs.describe(), answered, nreq, reqs, got)
+		}
 		return fmt.Sprintf("node level (topology %d, wiring %v): only %d of %d requests %v were answered: %v", topo, w.wire, answered, nreq, reqs, got)
 	}
 	time.Sleep(2 * time.Millisecond)
@@ -619,6 +647,11 @@ func nodeCase(r *rand.Rand, hist map[string]int) (fail string) {
 	case <-done:
 		return fmt.Sprintf("node level (topology %d): more answers than requests: %v for %v", topo, got, reqs)
 	default:
+	}
+	if obs != nil {
+		if f := obs.finish(w); f != "" {
+			return f
+		}
 	}
 	for i, v := range reqs {
 		want := []string{w.answerOfNode(0, v, 0)}
